@@ -13,6 +13,13 @@
      demod      [a, b, lab, shapeok]                demodulate(samples): samples (a[c], b[c]) on the
                 rational grid of resolution d (see ConstellationOps.Metric), returned labels
      roundtrip  [idx, lab, shapeok]                 demodulate(modulate(idx))
+     recheck    [of, now, nowok]                    the object RETURNED by event number `of` (a mod, demod
+                or roundtrip event whose result the caller kept by reference) read again after later
+                calls: now = its present contents in the coordinates of that event
+     every call event also carries the frame observations of the call discipline:
+                argsok (every array argument is bit-identical after the call), mod: ownok (the result
+                shares no memory with the object's symbol table), frameok (after a REJECTED call the
+                symbol table is bit-identical to what it was before)
    Arrays of every event are listed POSITION BY POSITION in row-major order of the logical index;
    the harness hands the real object the same logical array in different memory layouts
    (C, Fortran order, transposed view, strided slice, negative stride, 0-d) - the layout is not part
@@ -26,6 +33,8 @@
      demod      every sample with a unique nearest point: lab = the label the CURRENT table gives
                 that point; shape kept
      roundtrip  lab = idx
+     recheck    EarlierResultsUnchanged: now = what event `of` returned (pts resp. lab)
+     all calls  ArgumentsUnchanged (argsok), ResultNotAliased (ownok), RejectedChangesNothing (frameok)
    Each step appends the mismatches of its event to mm and emits one VCASE line
    [tid, ev, op, checked, mm, params]; params (on table events) are the error-rate parameters
    ConstellationOps.SerParams derives from the recorded table (consumed by C16).
@@ -122,6 +131,11 @@ DoSetOff(t, e) ==
 (* ------------------------------------ call events ------------------------------------------- *)
 First(S) == CHOOSE c \in S : \A x \in S : c <= x
 
+\* frame laws of the call discipline, from the observations every call event carries
+Frame(e) == (IF e.argsok THEN <<>> ELSE <<Mis("ArgumentsUnchanged", "none", 0, "arguments as passed", "modified")>>)
+            \o (IF e.op = "mod" /\ ~e.ownok THEN <<Mis("ResultNotAliased", "none", 0, "a result of its own", "shares memory with the symbol table")>> ELSE <<>>)
+            \o (IF e.op = "mod" /\ ~e.frameok THEN <<Mis("RejectedChangesNothing", "none", 0, "symbol table as before the rejected call", "changed")>> ELSE <<>>)
+
 DoMod(t, e) ==
   LET n == Len(e.idx)
       over == \E j \in 1..n : e.idx[j] >= g.m
@@ -132,7 +146,8 @@ DoMod(t, e) ==
               \o (IF bad = {} THEN <<>> ELSE <<Mis("ModulateLaw", "none", First(bad), tab[e.idx[First(bad)] + 1],
                                                    IF e.ptsok THEN e.pts[First(bad)] ELSE "not a point")>>)
               \o (IF ~over /\ e.out = "ok" /\ ~e.shapeok THEN <<Mis("ShapeKept", "none", 0, "input shape", "other")>> ELSE <<>>)
-     /\ checked' = n + 1
+              \o Frame(e)
+     /\ checked' = n + 4
      /\ UNCHANGED <<g, tab, inv, scale, good, params>>
 
 ExpLabel(a, b) == LET p == Nearest(g, Traces[tid].d, <<a, b>>) IN IF p = 0 THEN -1 ELSE inv[p] - 1
@@ -143,7 +158,8 @@ DoDemod(t, e) ==
   IN /\ mm' = (IF bad = {} THEN <<>> ELSE <<Mis("MLDetection", "none", First(bad), ex[First(bad)], e.lab[First(bad)]),
                                           Mis("MLDetectionCount", "none", Cardinality(bad), 0, 0)>>)
               \o (IF ~e.shapeok THEN <<Mis("ShapeKept", "none", 0, "input shape", "other")>> ELSE <<>>)
-     /\ checked' = Cardinality({c \in 1..n : ex[c] # -1}) + 1
+              \o Frame(e)
+     /\ checked' = Cardinality({c \in 1..n : ex[c] # -1}) + 2
      /\ UNCHANGED <<g, tab, inv, scale, good, params>>
 
 DoRoundTrip(t, e) ==
@@ -151,7 +167,19 @@ DoRoundTrip(t, e) ==
       bad == {j \in 1..n : e.lab[j] # e.idx[j]}
   IN /\ mm' = (IF bad = {} THEN <<>> ELSE <<Mis("RoundTrip", "none", First(bad), e.idx[First(bad)], e.lab[First(bad)])>>)
               \o (IF ~e.shapeok THEN <<Mis("ShapeKept", "none", 0, "input shape", "other")>> ELSE <<>>)
-     /\ checked' = n + 1
+              \o Frame(e)
+     /\ checked' = n + 2
+     /\ UNCHANGED <<g, tab, inv, scale, good, params>>
+
+\* EarlierResultsUnchanged: the result object of event e.of, still held by the caller, read again now
+DoRecheck(t, e) ==
+  LET o == t.events[e.of]
+      then == IF o.op = "mod" THEN o.pts ELSE o.lab
+      bad == IF ~e.nowok \/ Len(e.now) # Len(then) THEN {0} ELSE {j \in 1..Len(then) : e.now[j] # then[j]}
+  IN /\ mm' = IF bad = {} THEN <<>>
+               ELSE <<Mis("EarlierResultsUnchanged", "none", First(bad), IF First(bad) = 0 THEN "the points returned" ELSE then[First(bad)],
+                          IF First(bad) = 0 THEN "something else" ELSE e.now[First(bad)])>>
+     /\ checked' = Len(then)
      /\ UNCHANGED <<g, tab, inv, scale, good, params>>
 
 \* events after a table that could not be used are reported once as unchecked
@@ -171,6 +199,7 @@ Event ==
           [] e.op = "mod"       -> IF good THEN DoMod(t, e) ELSE Skip(e)
           [] e.op = "demod"     -> IF good THEN DoDemod(t, e) ELSE Skip(e)
           [] e.op = "roundtrip" -> IF good THEN DoRoundTrip(t, e) ELSE Skip(e)
+          [] e.op = "recheck"   -> DoRecheck(t, e)
 
 Next == Pick \/ Event
 
